@@ -19,6 +19,11 @@ def atom(v):
     if v is None:
         return ["none"]
     if isinstance(v, int):
+        if v.bit_length() > 14000:
+            # beyond the interpreter's int -> str digit limit (4300 decimal digits): the model gets the low 64 bits with bit 64 set and the sign — every modelled
+            # decision on an integer compares it with small thresholds or tests its low bits, so the substitute decides alike
+            w = (abs(v) & ((1 << 64) - 1)) | (1 << 64)
+            return ["int", str(-w if v < 0 else w)]
         return ["int", str(v)]
     if isinstance(v, float):
         if math.isfinite(v):
